@@ -128,6 +128,7 @@ def check_group(rep, g, seed):
 
     if fam == "Rn":
         return
+    cast_widening(rep, g, seed)
     HARNESS.prefetch(g, ["normalize"])
     normalize(rep, g, seed, n)
     if fam in ("SO2", "SE2"):
@@ -154,6 +155,43 @@ def check_group(rep, g, seed):
     if fam in QUAT:
         HARNESS.prefetch(g, ["ctor_quat", "ctor_angleaxis", "ctor_rpy"])
         quat_ctors(rep, g, seed)
+
+
+def cast_widening(rep, g, seed):
+    """bounded stand-in (two real floating-point types are involved, outside the real-number model): the REAL code
+    casts float elements, valid in float, to double on sampled inputs; the result must be valid in double"""
+    import random
+    import os
+    import mpmath as mp
+    from engine import build, vc
+    binary = HARNESS.natives.get(g)
+    if not binary:
+        return
+    lo, hi = ROT_SLOT[C.family(g)]
+    rng = random.Random(20260927)
+    sp0 = S.make_spec(g, 0, 1)
+    worst, bad = 0.0, None
+    n = 0
+    for k in range(12):
+        vals = vc.sample_group(g, rng, k)
+        inp = {"x%d" % i: float(v) for i, v in enumerate(vals)}
+        outs, thrown = build.run_native(binary, "cast_widen", inp, os.path.join(build.BUILD, "tmp"))
+        n += 1
+        if thrown:
+            bad = (inp, "threw: " + thrown)
+            break
+        y = outs["Y"][2]
+        dev = abs(sum(v * v for v in y[lo:hi]) ** 0.5 - 1.0)
+        worst = max(worst, dev)
+        if not dev < float(EPS):
+            bad = (inp, "| ||rot|| - 1 | = %.3g >= eps(double) = %.3g" % (dev, float(EPS)))
+            break
+    nm = "C13/%s/cast_float_to_double_returns_a_valid_element" % g
+    if bad:
+        rep.fail(nm, "FP", "native run (sampled)", {"what": bad[1], "note": "cast<double>() of an element that is valid in float"},
+                 {"failing_input_reproduced": True, "input": bad[0], "native_cmd": "%s cast_widen <input file>" % binary})
+    else:
+        rep.standin(nm, "FP", "native run (sampled)", {"samples": n, "max_norm_deviation": worst, "threshold": float(EPS)})
 
 
 def validation(rep, g, seed, n):
